@@ -129,6 +129,10 @@ namespace pika {
                 PIKA_ASSERT(counter_.load(std::memory_order_relaxed) == 0);
                 PIKA_ASSERT(notified_);
             }
+            else
+            {
+                PIKA_VERIF_POST("latch.nowait", this, counter_.load(std::memory_order_relaxed), notified_ ? 1 : 0);
+            }
         }
 
         /// Effects: Equivalent to:
